@@ -48,9 +48,18 @@ def lam_w_for(test, rates, w):
     return rates.sum(axis=0) * (n_obs / n_fore), w.sum(axis=0)
 
 
-def ex_case(ctx, case, test="L", num_sim=5, seed=1, inject=False, layout="C", scale=None):
+def ex_case(ctx, case, test="L", num_sim=5, seed=1, inject=False, layout="C", scale=None, pre=None):
     import csep.core.poisson_evaluations as pe
     fore, cat, reg, w = gridcases.build(case)
+    if pre == "regridded" and reg.num_nodes > 1:
+        # history: the same catalog object was gridded on another region (same cells, listed in reverse) before being bound to the forecast's
+        from csep.core.regions import CartesianGrid2D
+        other = CartesianGrid2D.from_origins(reg.origins()[::-1].copy(), dh=reg.dh, magnitudes=reg.magnitudes)
+        cat.region = other
+        ctx.call(cat.spatial_counts)
+        ctx.call(cat.spatial_magnitude_counts)
+        cat.region = fore.region
+        ctx.mon("history:catalog-regridded-before-test", 1)
     rates = numpy.array(case["rates"], dtype=float)
     if layout == "F":
         fore._data = numpy.asfortranarray(fore._data)
@@ -67,7 +76,7 @@ def ex_case(ctx, case, test="L", num_sim=5, seed=1, inject=False, layout="C", sc
     fn = {"L": pe.likelihood_test, "CL": pe.conditional_likelihood_test, "S": pe.spatial_test, "M": pe.magnitude_test}[test]
     lam, wobs = lam_w_for(test, rates, w)
     rc = {"exec": "case", "args": {"case": case, "test": test, "num_sim": num_sim, "seed": seed, "inject": inject, "layout": layout,
-                                   "scale": scale}}
+                                   "scale": scale, "pre": pre}}
     n_obs = int(w.sum())
     kw = {"num_simulations": num_sim, "seed": seed}
     if inject and test != "L":
@@ -75,7 +84,7 @@ def ex_case(ctx, case, test="L", num_sim=5, seed=1, inject=False, layout="C", sc
     has_zero = bool(numpy.any(lam == 0))
     ev_in_zero = bool(numpy.any((numpy.asarray(lam) == 0) & (numpy.asarray(wobs) > 0)))
     tags = {"test": test, "layout": layout, "zero_bins": has_zero, "event_in_zero_bin": ev_in_zero, "n_obs": min(n_obs, 3),
-            "scaled": scale is not None, "inject": bool(inject)}
+            "scaled": scale is not None, "inject": bool(inject), "history": pre}
     with simlog.RngLog() as rl, simlog.SimLog(pe, "poisson", rl) as sl:
         ok, res, tb = ctx.call(fn, fore, cat, **kw)
     ctx.count(1)
@@ -150,7 +159,7 @@ def run(ctx):
         scale = None if j % 4 else float(r.choice([0.5, 2.0, 10.0]))
         for test in TESTS:
             ex_case(ctx, case, test, num_sim=int(r.choice([1, 3, 6])), seed=int(r.integers(0, 1000)), inject=bool(j % 3 == 0),
-                    layout=layout, scale=scale)
+                    layout=layout, scale=scale, pre="regridded" if j % 6 == 1 else None)
         if j % 50 == 0:
             ctx.sample({"cells": case["nx"] * case["ny"], "mags": case["nmag"], "n_events": len(case["ev_cell"]),
                         "rates_first_row": case["rates"][0][:4], "total_rate": float(numpy.sum(case["rates"])),
